@@ -502,7 +502,7 @@ class MultiCrossBlockRepeat(Block):
                 start = self.preamble_size() - within_block.preamble_size
             else:
                 start = 0
-            end = within_block.num_trials
+            end = start + within_block.num_trials
             step = within_block.num_trials - within_block.preamble_size
             preamble = within_block.preamble_size
         else:
